@@ -1,6 +1,6 @@
 """C16 — service-loop property; see tools/mgrfam.py and DESIGN.md §5 C16.
 A second, oracle-only stage adds on-demand conversions through views (StreamContext.Data caches output for any
-converter, attached or not), which the service-loop model does not contain."""
+converter, attached or not), which the service-loop model does not contain; a third one holds conversions in flight (slow converter)."""
 import mgrfam
 import pk
 
@@ -22,4 +22,8 @@ def run(tier, seed, replay=None):
     rep = holder["rep"]
     mgrfam.stage(rep, "C16", tier, seed, gen_args=["-ondemand"], nsc=60 if tier != "thorough" else 600, nops=50,
                  label="ondemand", fields=[])
+    # third, oracle-only stage: a SLOW converter — conversions stay in flight across imports, tag edits and detaches
+    # (`convhold on … off`); the service-loop model converts when the job starts and cannot express this interleaving
+    mgrfam.stage(rep, "C16", tier, seed, gen_args=["-slowconv"], nsc=60 if tier != "thorough" else 600, nops=50,
+                 label="slowconv", fields=[])
     return rep.finish()
